@@ -376,7 +376,7 @@ def c13(chk):
     chk.assumptions = ["ConnectsWithin is evaluated for the unambiguous case (peer becomes reachable while no attempt is in flight)"]
     chk.add_mc(tlc_mc("MC_Dial.tla", "MC_Dial_quick.cfg" if quick(chk) else "MC_Dial_thorough.cfg", workers=8, timeout=900))
     chk.add_mc(tlc_mc("MC_Dial.tla", "MC_Dial_cap.cfg", workers=8, timeout=900))
-    runs = 24 if quick(chk) else 600
+    runs = 72 if quick(chk) else 900
     summ = harness("c13", out=os.path.join(vlib.WORK, "C13"), seed=chk.seed, runs=runs, jobs=12, files=8)
     summ["args"] = {}
     trace_check(chk, *CONN_TRACE, summ, label="dialing")
